@@ -47,8 +47,10 @@ def run(ctx):
                     elif m.startswith("sort") or m == "insert":
                         sorters.append((p, tt["sp"]))
         key = "%s:partition_point" % name
-        bad = [a for a in appenders if a[2]]
-        if bad and not sorters:
+        # an appending writer keeps the order only if it re-establishes it itself (a sort / sorted insert in the same
+        # function); a sort somewhere else (e.g. only on restore) does not help the events pushed afterwards
+        bad = [a for a in appenders if a[2] and not any(root_fn(s[0]) == root_fn(a[0]) for s in sorters)]
+        if bad:
             ctx.violation("sorted", key, "%s binary-searches a vector that %s fills by push() keyed with the arriving event's own timestamp and never sorts: with out-of-order timestamps (e.g. buffered [100, 50], cutoff 100) partition_point answers an arbitrary index and in-window events are dropped" % (name, root_fn(bad[0][0]).rsplit("::", 1)[1]), site=t["sp"], path=[bad[0][1], t["sp"]])
         elif appenders or sorters:
             ctx.ok("sorted", key, "writers keep the order: %s" % [root_fn(s[0]).rsplit("::", 1)[1] for s in sorters], site=t["sp"])
